@@ -335,8 +335,17 @@ META = {
                   'optimum (C01_static_merge_nonoptimal_shift), and a two-mode loop invariant (mode A while r is not part of the current block: every variable of the block is left '
                   'of its position at split entry by at least the violation of every in-constraint - every constraint holds at exit; mode B after r was merged: pair invariant J - '
                   'I2 at exit) kept by every iteration (C01_static_split_merge_left_step/_entry/_exit_*), mergeLeft as a whole GIVEN most violated roots '
-                  '(C01_static_split_merge_left_partial, hypothesis ml_roots_ok). Not proved: the in-heap order in the split context, Block::split / findMinLM (incl. the sign of '
-                  'the moves of the two halves), the assembly through static_split / refine_pass with totality. The candidate invariants are evaluated '
+                  '(C01_static_split_merge_left_partial, hypothesis ml_roots_ok) - that hypothesis is now DISCHARGED (Vpsc/StaticInHeap.v: after refine\'s first loop every '
+                  'constraint stamp equals the counter and only the current block is stamped later, so a key is stale by time stamp only if its left end is in the current block '
+                  '(invariant HW, bit 65536 of StaticRefB); the order "among CURRENT keys, heap-ordered" (Rcur) is compatible with CompareConstraints, only weakens when a key goes '
+                  'stale and survives the uniform shift of one Block::merge): C01_static_split_merge_left has the two-mode invariant and the heap / time-stamp well-formedness HW '
+                  'as premises; HW is established by refine\'s first loop (C01_static_refine_setup_heaps) and survives Block::split (C01_static_split_entry_heap_invariant, '
+                  'relation between the two states stated abstractly). Block::split: both halves come out at their weighted optimum with correct statistics '
+                  '(C01_static_split_halves_at_optimum), the forest facts in consumable form (C01_static_split_block_facts), and the SIGN lemma (C01_static_split_sign: the side of '
+                  'left(c) / right(c) has its optimum at -/+ lm(c)/(2U) from the old position, by summing the stationarity residuals over the side; corollaries '
+                  'C01_static_split_left_half_moves_left = the premise dl >= 0 of _merge_left_entry, C01_static_split_right_half_optimum_right = rho >= 0 of the mergeRight entry). '
+                  'Not proved: the assembly through static_split / refine_pass (carrying forest, T2 and the vector lengths through mergeLeft / mergeRight, stationarity from '
+                  'blk_ok instead of VpscStationary.fresh, totality), so passes_ok stays a visible hypothesis. The candidate invariants are evaluated '
                   'as booleans on every split of every DAG solve() instance (Vpsc/StaticRefB.v, driver line r, checked in vlib/c01lib.eval_corr_static): I2 / J / root-min (both heaps) / mode A / '
                   'all-sat-after-split hold on every visited state; the naive ones (mergeLeft(l) leaves everything satisfied, nothing moves right in mergeLeft / left in '
                   'mergeRight) are false on reachable states and are only recorded. '
